@@ -1,9 +1,23 @@
 package quic
 
-// [UQUIC] SetConnectionIDLimit was previously used to set a custom active connection ID
-// limit on the connIDManager. In quic-go v0.59.1, the connIDManager no longer stores
-// this limit — it is enforced via protocol.MaxActiveConnectionIDs and the peer's
-// transport parameters. This function is kept as a no-op for API compatibility;
-// the ActiveConnectionIDLimit value in the transport parameters already controls
-// how many connection IDs the server will send us.
-func (h *connIDManager) SetConnectionIDLimit(_ uint64) {}
+import "github.com/refraction-networking/uquic/internal/protocol"
+
+// [UQUIC] SetConnectionIDLimit records the active_connection_id_limit that a QUICSpec puts
+// on the wire, so that the connIDManager accepts as many connection IDs from the peer as
+// were advertised to it. Without it the limit enforced would be the constant
+// protocol.MaxActiveConnectionIDs, and a peer relying on a larger advertised value
+// (e.g. Firefox: 8) would be answered with CONNECTION_ID_LIMIT_ERROR.
+func (h *connIDManager) SetConnectionIDLimit(limit uint64) {
+	const maxLimit = 1 << 16 // keep the int conversion and the queue size sane
+	if limit > maxLimit {
+		limit = maxLimit
+	}
+	h.connIDLimit = int(limit)
+}
+
+func (h *connIDManager) maxActiveConnIDs() int {
+	if h.connIDLimit >= 2 { // RFC 9000: the advertised value is at least 2
+		return h.connIDLimit
+	}
+	return protocol.MaxActiveConnectionIDs
+}
